@@ -95,6 +95,40 @@ func genC07(r *sim.Rand, tier string) *sim.Case {
 		c.Ops = append(c.Ops, sim.Op{K: "add", A: int64(r.Intn(3)), B: int64(r.Intn(nvers) * (len(c07Versions) / nvers)),
 			C: int64(r.Intn(ntasks)), D: int64(1 + r.Intn(4)), S: hex.EncodeToString(uk)})
 	}
+	// Wide fan-out (sequential runs, 1 in 4): radix nodes with up to 256 children, so
+	// that every node size and every growth step of the ART is exercised with the
+	// extreme byte values present. Either many consecutive versions of one key
+	// (the version suffix fans out) or many equal-length keys differing in one byte.
+	if !conc && r.Intn(4) == 0 {
+		c.Cfg["wide"] = 1
+		cf := int64(r.Intn(3))
+		cnt := r.Pick(5, 17, 49, 50, 70, 130, 256)
+		if r.Intn(2) == 0 {
+			uk := pool[0]
+			base := r.Pick64(0, 200, 256, 512-40, 1<<32-30, -300, -256, -70)
+			down := r.Intn(2) == 0
+			for j := 0; j < cnt; j++ {
+				v := base + int64(j)
+				if down {
+					v = base + int64(cnt-1-j)
+				}
+				c.Ops = append(c.Ops, sim.Op{K: "addv", A: cf, B: v, D: int64(1 + r.Intn(4)), S: hex.EncodeToString(uk)})
+			}
+		} else {
+			prefix := pool[0]
+			if len(prefix) > 3 {
+				prefix = prefix[:3]
+			}
+			start, step := r.Intn(256), r.Pick(1, 3, 5, 255)
+			for j := 0; j < cnt; j++ {
+				uk := append(append([]byte{}, prefix...), byte(start+j*step))
+				if r.Intn(2) == 0 {
+					uk = append(uk, 'x')
+				}
+				c.Ops = append(c.Ops, sim.Op{K: "add", A: cf, B: int64(r.Intn(2)), D: int64(1 + r.Intn(4)), S: hex.EncodeToString(uk)})
+			}
+		}
+	}
 	return c
 }
 
@@ -170,6 +204,9 @@ func addOp(op sim.Op) (cf int, uk []byte, ver uint64, ok bool) {
 	cf = int(op.A % 3)
 	if cf < 0 {
 		cf = -cf
+	}
+	if op.K == "addv" { // explicit version (two's complement for the top of the range)
+		return cf, uk, uint64(op.B), true
 	}
 	vi := int(op.B) % len(c07Versions)
 	if vi < 0 {
